@@ -1,6 +1,8 @@
 package sym
 
 import (
+	"fmt"
+
 	"golang.org/x/tools/go/ssa"
 )
 
@@ -148,4 +150,28 @@ func (li *liveInfo) liveAt(b *ssa.BasicBlock, pc int) []uint64 {
 		}
 	}
 	return live
+}
+
+
+// DumpLive renders the live sets of fn (debugging aid).
+func (e *Engine) DumpLive(fn *ssa.Function) string {
+	li := e.liveness(fn)
+	names := make([]string, li.n)
+	for v, i := range li.idx {
+		names[i] = v.Name()
+	}
+	out := ""
+	for _, b := range fn.Blocks {
+		for pc := range b.Instrs {
+			live := li.liveAt(b, pc)
+			s := ""
+			for i := 0; i < li.n; i++ {
+				if bsHas(live, i) {
+					s += names[i] + " "
+				}
+			}
+			out += fmt.Sprintf("b%d.%d %-40s live: %s\n", b.Index, pc, b.Instrs[pc].String(), s)
+		}
+	}
+	return out
 }
